@@ -122,6 +122,16 @@ Definition pfx_unpack (parse : bytes -> res msg) (reg : registry) (lim : N) (s :
         Ok (m, ids, size, s)
     end.
 
+(* XferPipe.Append called with one id at a time, stopping at the first error *)
+Fixpoint append_each_err (reg : registry) (ids : list byte) (p : list filter) : option (list filter) :=
+  match ids with
+  | [] => Some p
+  | id :: r => match pipe_append reg p [id] with
+               | (p', None) => append_each_err reg r p'
+               | (_, Some _) => None
+               end
+  end.
+
 Section Json.
   Variable quote_hi : bytes -> bytes.
   Variable gjson_other : bytes -> jraw.
@@ -381,14 +391,12 @@ Section Json.
   Definition json_unpack (reg : registry) (lim : N) (s : bytes)
     : res (msg * list byte * N * bytes) := pfx_unpack json_parse reg lim s.
 
-  (* jsonSubProto.Unpack of ONE websocket message [b] (ioutil.ReadAll of the message):
-     every Append error is ignored, one id at a time *)
-  Definition append_each (reg : registry) (zs : list Z) : list filter :=
-    fold_left (fun p z => fst (pipe_append reg p [wrap8 z])) zs [].
-
+  (* jsonSubProto.Unpack of ONE websocket message [b] (ioutil.ReadAll of the message): the
+     pipe ids are appended one at a time and the first Append error refuses the frame
+     (/repo d626566; before, the error was ignored) *)
   Definition wsj_unpack (reg : registry) (lim : N) (b : bytes) : res (msg * list byte * N) :=
     let j := gjson_wsj b in
-    let p := append_each reg (jr_xfer j) in
+    p <- of_option (append_each_err reg (map wrap8 (jr_xfer j)) []) ;;
     body <- of_option (pipe_unpack p (jr_body j)) ;;
     m <- msg_of_jraw j body ;;
     Ok (m, pipe_ids p, sub_size lim b).
